@@ -36,7 +36,7 @@ VARIABLES H,          \* the C struct: [a, len, size, hi]
 
 INSTANCE SchedAbs
 
-Sentinel == [q |-> -1000, r |-> -1000, h |-> 0, c |-> MaxCounter]   \* also the NULL entry returned by root/entry
+Sentinel == [q |-> -1000000, r |-> -1000000, h |-> 0, c |-> MaxCounter]   \* also the NULL entry returned by root/entry
 Junk     == [q |-> 777, r |-> 777, h |-> -1, c |-> -1]               \* uninitialised memory
 
 ELt(e, f) == e.q < f.q \/ (e.q = f.q /\ e.r < f.r)   \* the strict comparison used everywhere in heap.c
